@@ -993,7 +993,7 @@ static ConstQueryFilterRef CreateQueryFilterFromExpressionAux(Lexer & lexer, con
          break;
 
          case LTOKEN_RPAREN:          // )
-            if ((subRef())&&(conjunctionRef() == NULL)&&(localToks.IsEmpty())) return B_ERROR("')' must not be the first token in a subexpression");
+            if ((subRef() == NULL)&&(conjunctionRef() == NULL)&&(localToks.IsEmpty())) return B_ERROR("')' must not be the first token in a subexpression");
             keepGoing = false; // our subexpression ends here
          break;
 
